@@ -655,19 +655,107 @@ Qed.
 
 (* ---- C02 laws (handler level, any configuration) ---- *)
 
+Lemma ensure_bucket_present c s b bk : get_bucket s b = Some bk -> ensure_bucket c s b = (s, None).
+Proof. intros H. unfold ensure_bucket. rewrite H. reflexivity. Qed.
+
+Lemma ensure_bucket_noauto c s b : cfg_auto_bucket c = false -> fst (ensure_bucket c s b) = s.
+Proof. intros H. unfold ensure_bucket. destruct (get_bucket s b); [reflexivity|]. rewrite H. reflexivity. Qed.
+
+Lemma ensure_bucket_cases c s b s1 r :
+  ensure_bucket c s b = (s1, r) ->
+  s1 = s \/ (get_bucket s b = None /\ r = None /\
+             s1 = set_bucket s b {| b_ver := VNone; b_objs := [] |}).
+Proof.
+  unfold ensure_bucket. destruct (get_bucket s b) as [bk|] eqn:Eb.
+  - intros H; inversion H; auto.
+  - destruct (cfg_auto_bucket c).
+    + unfold create_bucket. rewrite Eb. cbn [fst]. intros H; inversion H; subst. right. auto.
+    + intros H; inversion H; auto.
+Qed.
+
+Lemma get_object_set_other s b bk b' k' :
+  b' <> b -> get_object (set_bucket s b bk) b' k' = get_object s b' k'.
+Proof.
+  intros Hne. unfold get_object, get_bucket, set_bucket. cbn [st_buckets].
+  rewrite get_set_neq by exact Hne. reflexivity.
+Qed.
+
+Lemma ensure_bucket_get c s b s1 r b' k' :
+  ensure_bucket c s b = (s1, r) ->
+  get_object s1 b' k' = get_object s b' k' \/
+  (b' = b /\ get_bucket s b = None /\ get_object s1 b' k' = OErr ENoSuchKey).
+Proof.
+  intros H. apply ensure_bucket_cases in H. destruct H as [->|(Hb & _ & ->)]; [left; reflexivity|].
+  destruct (beq b' b) eqn:E.
+  - apply beq_eq in E. subst b'. right. split; [reflexivity|]. split; [exact Hb|].
+    unfold get_object. rewrite get_bucket_set_eq. reflexivity.
+  - apply beq_neq in E. left. apply get_object_set_other. exact E.
+Qed.
+
+Lemma ensure_bucket_get_other c s b s1 r b' k' :
+  ensure_bucket c s b = (s1, r) -> get_bucket s b' <> None ->
+  get_object s1 b' k' = get_object s b' k'.
+Proof.
+  intros H Hb. destruct (ensure_bucket_get _ _ _ _ _ b' k' H) as [H1|(-> & H2 & _)]; [exact H1|].
+  contradiction.
+Qed.
+
+Lemma put_object_bucket s b k body m s' vid :
+  put_object s b k body m = (s', (None, vid)) -> exists bk', get_bucket s' b = Some bk'.
+Proof.
+  unfold put_object. destruct (get_bucket s b) as [bk|]; [|discriminate].
+  destruct (bucket_put bk (st_next s) k false body m) as [[bk' n'] id].
+  intros H; inversion H; subst. exists bk'. unfold get_bucket. cbn [st_buckets]. apply get_set_eq.
+Qed.
+
 (* read-your-writes *)
 Lemma law_get_after_put c s b k body m s1 vid :
   step c s (OPut b k body m) = (s1, RPut vid) ->
   exists v sv, snd (step c s1 (OGet b k None)) = RObj v sv /\ vd_body v = body /\ vd_meta v = m.
 Proof.
-Admitted.
+  cbn [step]. destruct (ensure_bucket c s b) as [s0 [e|]] eqn:Ee; [discriminate|].
+  destruct (put_object s0 b k body m) as [s2 [[e|] vid']] eqn:Ep; [discriminate|].
+  intros H; inversion H; subst; clear H.
+  destruct (put_object_bucket _ _ _ _ _ _ _ Ep) as [bk' Hb'].
+  destruct (get_after_put _ _ _ _ _ _ _ Ep) as (v & sv & Hg & H1 & H2 & _).
+  rewrite (ensure_bucket_present c _ _ _ Hb'). rewrite Hg. cbn [snd]. eauto.
+Qed.
 
 (* a put changes no other key of any bucket that existed before it *)
 Lemma law_put_frame c s b k body m b' k' :
   (b', k') <> (b, k) -> get_bucket s b' <> None ->
   get_object (fst (step c s (OPut b k body m))) b' k' = get_object s b' k'.
 Proof.
-Admitted.
+  intros Hne Hb'. cbn [step].
+  destruct (ensure_bucket c s b) as [s0 [e|]] eqn:Ee.
+  { cbn [fst]. eapply ensure_bucket_get_other; eassumption. }
+  destruct (put_object s0 b k body m) as [s2 [[e|] vid]] eqn:Ep; cbn [fst].
+  - rewrite (get_put_other _ _ _ _ _ _ _ _ _ Ep Hne). eapply ensure_bucket_get_other; eassumption.
+  - rewrite (get_put_other _ _ _ _ _ _ _ _ _ Ep Hne). eapply ensure_bucket_get_other; eassumption.
+Qed.
+
+Lemma delete_object_unversioned s b k bk :
+  Inv s -> get_bucket s b = Some bk -> b_ver bk = VNone ->
+  delete_object s b k =
+  (set_bucket s b {| b_ver := VNone; b_objs := sm_del k (b_objs bk) |}, (None, (false, None))).
+Proof.
+  intros Hi Hb Hv. unfold delete_object. rewrite Hb. unfold bucket_rm.
+  destruct (sm_get k (b_objs bk)) as [o|] eqn:Eg.
+  - rewrite Hv. cbv zeta. cbv iota. unfold drop_current.
+    destruct (inv_get_bucket _ _ _ Hi Hb) as (_ & _ & Hn).
+    destruct (Hn Hv k o (get_in _ _ _ Eg)) as [Hnil _]. rewrite Hnil. cbn [vers_last map last].
+    rewrite Hv. reflexivity.
+  - rewrite (del_absent _ _ Eg). unfold set_bucket. destruct bk as [ver objs]. cbn [b_ver b_objs] in *.
+    subst ver. reflexivity.
+Qed.
+
+Lemma step_delete_unversioned c s b k bk :
+  Inv s -> get_bucket s b = Some bk -> b_ver bk = VNone ->
+  fst (step c s (ODelete b k)) = set_bucket s b {| b_ver := VNone; b_objs := sm_del k (b_objs bk) |}.
+Proof.
+  intros Hi Hb Hv. cbn [step]. rewrite (ensure_bucket_present c _ _ _ Hb).
+  rewrite (delete_object_unversioned _ _ _ _ Hi Hb Hv). reflexivity.
+Qed.
 
 (* in a never-versioned bucket a deleted key reads NoSuchKey, deleting again changes nothing,
    and other keys are untouched *)
@@ -678,14 +766,33 @@ Lemma law_delete c s b k bk :
   fst (step c s1 (ODelete b k)) = s1 /\
   (forall b' k', (b', k') <> (b, k) -> get_object s1 b' k' = get_object s b' k').
 Proof.
-Admitted.
+  intros Hi Hb Hv s1.
+  pose proof (step_inv c s (ODelete b k) Hi) as Hi1. fold s1 in Hi1.
+  assert (Es1 : s1 = set_bucket s b {| b_ver := VNone; b_objs := sm_del k (b_objs bk) |}).
+  { apply step_delete_unversioned; assumption. }
+  clearbody s1.
+  destruct (inv_get_bucket _ _ _ Hi Hb) as (Hs & _ & _).
+  assert (Hb1 : get_bucket s1 b = Some {| b_ver := VNone; b_objs := sm_del k (b_objs bk) |}).
+  { rewrite Es1. apply get_bucket_set_eq. }
+  split; [|split].
+  - unfold get_object. rewrite Hb1. cbn [b_objs]. rewrite (get_del_eq _ _ Hs). reflexivity.
+  - rewrite (step_delete_unversioned c _ _ _ _ Hi1 Hb1 eq_refl). cbn [b_objs].
+    rewrite (del_absent k (sm_del k (b_objs bk))) by (apply get_del_eq; exact Hs).
+    rewrite Es1 at 2. rewrite Es1. unfold set_bucket. cbn [st_buckets st_next].
+    rewrite set_idem. reflexivity.
+  - intros b' k' Hne. destruct (beq b' b) eqn:E.
+    + apply beq_eq in E. subst b'. unfold get_object. rewrite Hb1, Hb. cbn [b_objs b_ver]. rewrite Hv.
+      rewrite get_del_neq by (intros ->; apply Hne; reflexivity). reflexivity.
+    + apply beq_neq in E. rewrite Es1. apply get_object_set_other. exact E.
+Qed.
 
 (* bucket lifecycle *)
 Lemma law_create_existing c s b bk :
   get_bucket s b = Some bk -> validate b = true ->
   step c s (OCreateBucket b) = (s, RErr EBucketAlreadyExists).
 Proof.
-Admitted.
+  intros Hb Hv. cbn [step]. rewrite Hv. cbn [negb]. unfold create_bucket. rewrite Hb. reflexivity.
+Qed.
 
 Lemma law_missing_bucket c s b k :
   cfg_auto_bucket c = false -> get_bucket s b = None ->
@@ -693,20 +800,31 @@ Lemma law_missing_bucket c s b k :
   step c s (ODeleteBucket b) = (s, RErr ENoSuchBucket) /\
   (forall body m, step c s (OPut b k body m) = (s, RErr ENoSuchBucket)).
 Proof.
-Admitted.
+  intros Ha Hb.
+  assert (He : ensure_bucket c s b = (s, Some ENoSuchBucket)).
+  { unfold ensure_bucket. rewrite Hb, Ha. reflexivity. }
+  split; [|split]; [| |intros body m]; cbn [step]; rewrite He; reflexivity.
+Qed.
 
 Lemma law_delete_nonempty_bucket c s b bk :
   get_bucket s b = Some bk -> b_objs bk <> [] ->
   step c s (ODeleteBucket b) = (s, RErr EBucketNotEmpty).
 Proof.
-Admitted.
+  intros Hb Hne. cbn [step]. rewrite (ensure_bucket_present c _ _ _ Hb).
+  unfold delete_bucket. rewrite Hb. destruct (b_objs bk); [contradiction|reflexivity].
+Qed.
 
 Lemma law_delete_empty_bucket c s b bk :
   Inv s -> get_bucket s b = Some bk -> b_objs bk = [] ->
   exists s1, step c s (ODeleteBucket b) = (s1, ROk) /\ get_bucket s1 b = None /\
              (forall b', b' <> b -> get_bucket s1 b' = get_bucket s b').
 Proof.
-Admitted.
+  intros (Hs & _) Hb He. eexists. split; [|split].
+  - cbn [step]. rewrite (ensure_bucket_present c _ _ _ Hb).
+    unfold delete_bucket. rewrite Hb, He. reflexivity.
+  - unfold get_bucket. cbn [st_buckets]. apply get_del_eq. exact Hs.
+  - intros b' Hne. unfold get_bucket. cbn [st_buckets]. apply get_del_neq. exact Hne.
+Qed.
 
 (* copy: destination body = source body; the source is unchanged (unless it is the destination) *)
 Lemma law_copy c s sb sk b k s1 body :
@@ -715,13 +833,73 @@ Lemma law_copy c s sb sk b k s1 body :
   (exists v' sv', get_object s1 b k = OObj v' sv' /\ vd_body v' = body) /\
   ((sb, sk) <> (b, k) -> get_bucket s sb <> None -> get_object s1 sb sk = get_object s sb sk).
 Proof.
-Admitted.
+  cbn [step]. destruct (ensure_bucket c s b) as [s0 [e|]] eqn:Ee; [discriminate|].
+  destruct (get_object s0 sb sk) as [e|v sv] eqn:Eg; [discriminate|].
+  destruct (put_object s0 b k (vd_body v) (vd_meta v)) as [s2 [[e|] vid]] eqn:Ep; [discriminate|].
+  intros H; inversion H; subst; clear H.
+  split; [|split].
+  - exists v, sv. split; [|reflexivity].
+    destruct (ensure_bucket_get _ _ _ _ _ sb sk Ee) as [H1|(_ & _ & H1)]; congruence.
+  - destruct (get_after_put _ _ _ _ _ _ _ Ep) as (v' & sv' & Hg & H1 & _). eauto.
+  - intros Hne Hsb. rewrite (get_put_other _ _ _ _ _ _ _ _ _ Ep Hne).
+    eapply ensure_bucket_get_other; eassumption.
+Qed.
 
 (* an operation answered with an error leaves the state unchanged (auto-bucket off) *)
 Lemma law_error_frame c s o e :
   cfg_auto_bucket c = false -> snd (step c s o) = RErr e -> fst (step c s o) = s.
 Proof.
-Admitted.
+  intros Ha.
+  assert (He : forall b, exists r, ensure_bucket c s b = (s, r)).
+  { intros b. pose proof (ensure_bucket_noauto c s b Ha) as H.
+    destruct (ensure_bucket c s b) as [s1 r]. cbn [fst] in H. subst. eauto. }
+  destruct o; cbn [step].
+  - destruct (negb (validate b)); [reflexivity|].
+    destruct (create_bucket s b) as [s' [e'|]] eqn:Ec; cbn [fst snd]; [|discriminate].
+    apply create_bucket_err in Ec. destruct Ec as [_ ->]. reflexivity.
+  - destruct (He b) as [[e'|] ->]; [reflexivity|].
+    destruct (delete_bucket s b) as [s2 [e'|]] eqn:Ed; cbn [fst snd]; [|discriminate].
+    apply delete_bucket_err in Ed. destruct Ed as [_ ->]. reflexivity.
+  - destruct (He b) as [[e'|] ->]; reflexivity.
+  - reflexivity.
+  - destruct (He b) as [[e'|] ->]; [reflexivity|].
+    destruct (put_object s b k body m) as [s2 [[e'|] vid]] eqn:Ep; cbn [fst snd]; [|discriminate].
+    apply put_object_err in Ep. destruct Ep as [_ ->]. reflexivity.
+  - destruct (He b) as [[e'|] ->]; [reflexivity|].
+    destruct vid as [id|].
+    + destruct (negb (cfg_versioned c)); [reflexivity|].
+      destruct (get_object_version s b k id) as [e'|v sv]; [reflexivity|].
+      destruct (vd_marker v); reflexivity.
+    + destruct (get_object s b k); reflexivity.
+  - destruct (He b) as [[e'|] ->]; [reflexivity|].
+    destruct vid as [id|].
+    + destruct (negb (cfg_versioned c)); [reflexivity|].
+      destruct (get_object_version s b k id) as [e'|v sv]; [reflexivity|].
+      destruct (vd_marker v); reflexivity.
+    + destruct (get_object s b k); reflexivity.
+  - destruct (He b) as [[e'|] ->]; [reflexivity|].
+    destruct (delete_object s b k) as [s2 [[e'|] [mk vid]]] eqn:Ep; cbn [fst snd]; [|discriminate].
+    apply delete_object_err in Ep. destruct Ep as [_ ->]. reflexivity.
+  - destruct (negb (cfg_versioned c)); [reflexivity|].
+    destruct (He b) as [[e'|] ->]; [reflexivity|].
+    destruct (delete_object_version s b k vid) as [s2 [[e'|] [mk vid']]] eqn:Ep; cbn [fst snd]; [|discriminate].
+    apply delete_object_version_err in Ep. destruct Ep as [_ ->]. reflexivity.
+  - destruct (He b) as [[e'|] ->]; [reflexivity|]. cbn [snd]. discriminate.
+  - destruct (He b) as [[e'|] ->]; [reflexivity|].
+    destruct (get_object s sb sk) as [e'|v sv]; [reflexivity|].
+    destruct (put_object s b k (vd_body v) (vd_meta v)) as [s2 [[e'|] vid]] eqn:Ep; cbn [fst snd]; [|discriminate].
+    apply put_object_err in Ep. destruct Ep as [_ ->]. reflexivity.
+  - destruct (He b) as [[e'|] ->]; [reflexivity|].
+    destruct (negb (cfg_versioned c)); [reflexivity|].
+    destruct (set_versioning s b enable) as [s2 [e'|]] eqn:Ep; cbn [fst snd]; [|discriminate].
+    apply set_versioning_err in Ep. destruct Ep as [_ ->]. reflexivity.
+  - destruct (He b) as [[e'|] ->]; [reflexivity|]. cbv zeta.
+    destruct ((has_marker || negb (beq marker []) || negb (maxkeys =? 0)) && negb (cfg_pages c) && cfg_fail_unimpl_page c);
+      [reflexivity|].
+    destruct (if (has_marker || negb (beq marker []) || negb (maxkeys =? 0)) && negb (cfg_pages c)
+              then ([], 0) else (marker, maxkeys)) as [mk' mx'].
+    destruct (list_bucket s b pre delim mk' mx'); reflexivity.
+Qed.
 
 Print Assumptions step_inv.
 Print Assumptions law_error_frame.
